@@ -114,3 +114,7 @@ pub mod expr;
 pub mod instrgen;
 pub mod lexwire;
 pub mod seqgate;
+pub mod sched;
+pub mod gatewire;
+pub mod progwire;
+pub mod ast;
